@@ -5,6 +5,7 @@ from .c09 import C09
 class C10(C09):
     id = "C10"
     trace_cfg = "TraceC10.cfg"
+    refusal_family = None
     want = ("bwd",)
     rule = ("one record per (program, configuration): forward-then-backward and backward-then-forward images of a map probe, a list probe with "
             "all four phases and a signed rank-1 state probe must equal the originals bitwise; backward alone must equal the inverse gates in reverse order")
